@@ -22,18 +22,21 @@ TOwner(x) == IF "owner" \in DOMAIN U /\ x \in DOMAIN U.owner THEN U.owner[x] ELS
 Held(x) == {<<TOwner(x), c>> : c \in TComps[x]}
 After(e) == IF e.op = "load" THEN loaded \cup Held(e.x) ELSE loaded \ Held(e.x)
 CompsOf(L) == {p[2] : p \in L}
+TSecret == {c \in TAllComps : "secret" \in DOMAIN U.comp[c] /\ U.comp[c].secret}
+DecIdents == IF "decrypt_idents" \in DOMAIN U THEN SetOf(U.decrypt_idents) ELSE {}
+SelK(C, k, got) == IF Idents[k] \in DecIdents THEN SelDecOKC(C, Idents[k], got, TSecret) ELSE SelOKC(C, Idents[k], got)
 FirstFailing(e, L) ==
   IF "raised" \in DOMAIN e /\ e.raised THEN "C19.operation-raised"      \* loading / unloading a key is total (Keyring.tla: Load, Reload, Unload, UnloadAbsent)
   ELSE IF ~("obs" \in DOMAIN e) THEN "ok"
   ELSE LET o == e.obs IN
     IF ~FprsOKC(CompsOf(L), SetOf(o.fprs)) THEN "C19.fingerprints"
-    ELSE IF \E k \in 1..Len(Idents) : ~SelOKC(CompsOf(L), Idents[k], o.sel[k]) THEN "C19.select"
+    ELSE IF \E k \in 1..Len(Idents) : ~SelK(CompsOf(L), k, o.sel[k]) THEN "C19.select"
     ELSE IF \E k \in 1..Len(Idents) : ~HasOKC(CompsOf(L), Idents[k], o.has[k]) THEN "C19.contains"
     ELSE IF o.len # Cardinality(L) THEN "C19.len"
     ELSE "ok"
 BadIdent(e, L) == IF ~("obs" \in DOMAIN e) THEN "-" ELSE LET o == e.obs IN
-  IF \E k \in 1..Len(Idents) : ~SelOKC(CompsOf(L), Idents[k], o.sel[k])
-  THEN Idents[CHOOSE k \in 1..Len(Idents) : ~SelOKC(CompsOf(L), Idents[k], o.sel[k])] ELSE "-"
+  IF \E k \in 1..Len(Idents) : ~SelK(CompsOf(L), k, o.sel[k])
+  THEN Idents[CHOOSE k \in 1..Len(Idents) : ~SelK(CompsOf(L), k, o.sel[k])] ELSE "-"
 NextTrace == tid' = tid + 1 /\ i' = 1 /\ loaded' = {}
 TInit == tid = 1 /\ i = 1 /\ loaded = {}
 Step == IF tid > Len(Traces) THEN PrintT(<<"DONE", Len(Traces)>>) /\ tid' = tid + 1 /\ UNCHANGED <<i, loaded>>
